@@ -281,6 +281,16 @@ def duplicate(sketch, how):
     return c
 
 
+def _salt(sketch, kind):
+    """A small content-derived number (so that a replayed case takes the same branch)."""
+    try:
+        if kind == "hll":
+            return int(np.asarray(sketch.registers, dtype=np.uint64).sum())
+        return int(sketch.n_added_records[0]) & 0xFFFF
+    except Exception:  # noqa: BLE001
+        return 0
+
+
 def save_load(sketch, kind, shared_memory=False, via_module=False):
     """save() to a temp file and load it back through the class loader (or countmin.load)."""
     s = sk()
@@ -291,6 +301,15 @@ def save_load(sketch, kind, shared_memory=False, via_module=False):
         path = Path(path)  # file names are documented as str | Path
     try:
         sketch.save(path)
+        if _salt(sketch, kind) % 4 == 1:
+            # the file is overwritten by another sketch (a loaded copy that moved on) and then saved again by this one,
+            # unchanged in between: what is loaded afterwards must be this sketch, not the other
+            loader = s.HeavyHitters.load if kind == "hh" else (s.HyperLogLog.load if kind == "hll" else s.countmin.load)
+            decoy = loader(path)
+            decoy.add(b"decoy-key-\x01", 3)
+            decoy.save(path)
+            del decoy
+            sketch.save(path)
         if kind == "hh":
             return s.HeavyHitters.load(path, shared_memory)
         if kind == "hll":
